@@ -123,6 +123,7 @@ func (d *emuCurveDesc) edgeScalars(rng *rand.Rand) []namedInt {
 	push("8", bi(8))
 	push("r-1", add(r, -1))
 	push("r-2", add(r, -2))
+	push("r-3", add(r, -3))
 	push("r", r)
 	push("r+1", add(r, 1))
 	push("r+2", add(r, 2))
@@ -505,24 +506,17 @@ func poolTrouble(r *vcore.Run, fam string, o outcome, rep map[string]any, sigBas
 func (d *emuCurveDesc) scalarClass(k *big.Int) string {
 	r := d.c.R
 	km := new(big.Int).Mod(k, r)
+	// the representation (reduced or not) is reported in the replay, not in the class
 	pre := ""
-	if k.Cmp(r) >= 0 {
-		pre = "unreduced:"
-	}
 	neg := new(big.Int).Sub(r, km)
 	switch {
 	case km.Sign() == 0:
-		return pre + "s≡0"
-	case km.Cmp(bi(1)) == 0:
-		return pre + "s≡1"
-	case neg.Cmp(bi(1)) == 0:
-		return pre + "s≡-1"
-	case km.Cmp(bi(3)) == 0 || neg.Cmp(bi(3)) == 0:
-		return pre + "s≡±3"
-	case km.Cmp(bi(16)) <= 0:
-		return pre + "s≡small"
-	case neg.Cmp(bi(16)) <= 0:
-		return pre + "s≡-small"
+		return "s≡0"
+	case km.Cmp(bi(1)) == 0, neg.Cmp(bi(1)) == 0, km.Cmp(bi(3)) == 0, neg.Cmp(bi(3)) == 0:
+		// [s]P in {±P, ±3P}: collides with the precomputed table entries
+		return "s≡±1or±3"
+	case km.Cmp(bi(16)) <= 0, neg.Cmp(bi(16)) <= 0:
+		return "s≡±small"
 	}
 	if d.glv {
 		l := d.lambda
@@ -582,7 +576,25 @@ func (d *emuCurveDesc) inputClass(c *emuCase) (scalars []string, all string) {
 		ps = append(ps, s)
 	}
 	sort.Strings(ps)
-	return scalars, strings.Join(scalars, "+") + "/" + strings.Join(ps, "+")
+	// the point class is part of the signature only where it is the cause: the
+	// dummy point [8]G of the complete-arithmetic paths, and P=±G together with
+	// the unit-combination scalars; otherwise any point shows the same failure
+	var keep []string
+	for _, p := range ps {
+		unit := false
+		for _, sc := range scalars {
+			if strings.HasPrefix(sc, "s≡unit") || sc == "s-generic" || sc == "s≡±small" {
+				unit = true
+			}
+		}
+		if p == "P=±8G" || (unit && p != "P-generic") {
+			keep = append(keep, p)
+		}
+	}
+	if len(keep) == 0 {
+		keep = []string{"any-P"}
+	}
+	return scalars, strings.Join(scalars, "+") + "/" + strings.Join(keep, "+")
 }
 
 // emuJudge collects the verdicts of the emulated family. Failures of the
